@@ -61,8 +61,8 @@ def correspond2(ctx, impl, model, family, cases, sd, dd):
     cases.sort(key=lambda c: c["schema"])           # contiguous schemas: both sides cache the last one
     ilines = [hexs(c["schema"]) + " " + hexs(c["doc"]) for c in cases]
     mlines = [sd[c["schema"]] + " " + dd[c["doc"]] for c in cases]
-    iout = run_family(impl, family, ilines, shards=8)
-    mout = run_family(model, family, mlines, shards=8)
+    iout = run_family(impl, family, ilines, shards=16)
+    mout = run_family(model, family, mlines, shards=16)
     fam = ctx.cov["families"].setdefault(family, {"cases": 0, "agree": 0, "known": 0, "outside_limits": 0})
     rows, dis = [], []
     for c, io, mo in zip(cases, iout, mout):
